@@ -54,7 +54,7 @@ class HashGlobalVar(Expression):
             self.ebpf.call(FuncId.map_lookup_elem)
             with self.ebpf.r0 == 0:
                 self.ebpf.exit()
-            if dst != 0 and force:
+            if dst != 0:
                 self.ebpf.append(Opcode.MOV + Opcode.LONG + Opcode.REG, dst,
                                  0, 0, 0)
             else:
